@@ -1719,7 +1719,7 @@ func publish(r *ev.Run, results []*tres) {
 	r.Cov["long_histories"] = longs
 	r.Cov["depth"] = maxDepth
 	r.Cov["exhaustive"] = exhaustive
-	r.Cov["explanation"] = map[string]any{"searches": summaries}
+	r.Cov["details"] = map[string]any{"searches": summaries}
 }
 
 // ---------------------------------------------------------------------------------------------
@@ -1919,7 +1919,7 @@ func c10(tier string, r *ev.Run, replay string) {
 	results := runJobs(jobs, par, tier)
 	publish(r, results)
 	r.Cov["page_sizes"] = "80, 96, 112 (quick); + 160, 4096 (thorough); long histories at 80, 256, 4096 (+96,112,160 thorough)"
-	ex := r.Cov["explanation"].(map[string]any)
+	ex := r.Cov["details"].(map[string]any)
 	ex["alphabet"] = "Set(k,v), DeleteBelow(ts), IterateKV(rewrite), Reset; per search: see 'searches' (full alphabet: keys 1..9, 2^63, 2^64-3, 2^64-2; values 1,2,3,2^64-1; ts 1,2,3,4,2^64-1)"
 	ex["oracle"] = "after EVERY transition: Get(k)==model for every tracked key (0 if absent), one read-only IterateKV visits exactly the live pairs once each, no panic; DeleteBelow(ts) removes exactly model values < ts; IterateKV(f) sees the live pairs once each and applies non-zero rewrites"
 	ex["state_key"] = "bytes of pages 1..nextPage-1 + nextPage + freePage + private stats + len(data) + len(buffer)"
